@@ -65,27 +65,6 @@ Proof.
   pairs; lra.
 Qed.
 
-(* canonical order: the ordered spectrum depends only on the multiset of eigenvalues *)
-Lemma sort_canonical_l c l l' : Perm3 l l' -> distinct3 (key c l) -> sortc c l' = sortc c l.
-Proof.
-  intros P D. apply (pos_inj c).
-  apply (chain_unique (kfun c (avg3 l)) l).
-  - apply pos_perm. eapply Perm3_trans; [exact P | apply sortc_perm].
-  - apply pos_perm, sortc_perm.
-  - rewrite <- (Perm3_avg l l' P). apply sortc_chain.
-  - apply sortc_chain.
-  - destruct l as [[a b] c0]. revert D. unfold key. generalize (avg3 (a,b,c0)); intro m.
-    destruct c as [|[|[|c]]]; unfold distinct3, kfun, abs3, sub3s, absn; intros (D1 & D2 & D3); repeat split; try assumption;
-    intro H; first [apply D1; lra | apply D2; lra | apply D3; lra].
-Qed.
-
-Lemma sort_canonical_id_l c l l' : (c < 2)%nat -> Perm3 l l' -> sortc c l' = sortc c l.
-Proof.
-  intros Hc. destruct l as [[a b] c0]. unfold Perm3.
-  destruct c as [|[|c]]; try lia; intros [H|[H|[H|[H|[H|H]]]]]; subst l'; unfold sortc; unf; cbn [fst];
-  lebs; cbn; bools; pairs; lra.
-Qed.
-
 Lemma symm_is_symmetric_l M : transpose (symm M) = symm M.
 Proof.
   destruct M as [[[[a b] c] [[d e] f]] [[g h] i]]. cbv [transpose symm]. unfold of_Z. pairs; lra.
